@@ -191,7 +191,7 @@ def faces_for(ext, n, kappa):
     return out
 
 
-def solve_once(cls, mms, ext, n, kappa, bckinds, tset, tmode, lam, lunit=1.0, order='diff-first', periodic=()):
+def solve_once(cls, mms, ext, n, kappa, bckinds, tset, tmode, lam, lunit=1.0, order='diff-first', periodic=(), route='plain'):
     """lunit: the same problem expressed in another length unit (faces of length-like axes, D, u, boundary a rescaled by their
     dimension; the oracle stays in the original unit). order: which matrix terms are built first on the shared mesh."""
     faces = faces_for(ext, n, kappa)
@@ -249,7 +249,27 @@ def solve_once(cls, mms, ext, n, kappa, bckinds, tset, tmode, lam, lunit=1.0, or
             bc_at(0.0)
             phi = pf.CellVariable(m, 0.0, BC)
             gamma = Lpsi * mms.g(0.0)
-            pf.solvePDE(phi, terms0 + [pf.constantSourceTerm(pf.CellVariable(m, gamma.copy()))])
+            src_vec = pf.constantSourceTerm(pf.CellVariable(m, gamma.copy()))
+            if route == 'list-twice':
+                # ONE term list, source vector first, a (matrix, vector) pair in it, matrices in any sparse format - solved twice (the
+                # second solve is the one that is measured: a list of terms can be used again)
+                half = pf.constantSourceTerm(pf.CellVariable(m, 0.5 * gamma))           # the source in two halves: a bare vector ...
+                pair = (pf.linearSourceTerm(pf.CellVariable(m, 0.0)), pf.constantSourceTerm(pf.CellVariable(m, 0.5 * gamma)))   # ... and a pair
+                tl = gen.vary_terms(gen.rng_for(len(n), int(n[0]), 7), [half] + terms0 + [pair])
+                pf.solvePDE(phi, tl)
+                phi = pf.CellVariable(m, 0.0, BC)
+                pf.solvePDE(phi, tl)
+            elif route == 'matrix':
+                # the expert route: system assembled by hand and handed to solveMatrixPDE as a CSC / COO / LIL matrix
+                import scipy.sparse as sp_
+                Mbc, bbc = pf.boundaryConditionsTerm(BC)
+                Mt = sp_.csr_array(Mbc)
+                for t_ in terms0:
+                    Mt = Mt + t_
+                fmt_ = ['csc', 'coo', 'lil'][int(n[0]) % 3]
+                phi = pf.solveMatrixPDE(m, getattr(sp_.csr_array(Mt), 'to' + fmt_)(), np.asarray(bbc) + src_vec)
+            else:
+                pf.solvePDE(phi, terms0 + [src_vec])
             exact = psi_c * mms.g(0.0)
         else:
             hh = max(float(np.max(g.w[k])) / (ext[k][1] - ext[k][0]) for k in range(nd))
@@ -334,7 +354,7 @@ def run_case(case):
         nn = [n0 * mult] * nd
         if strip is not None:
             nn[strip] = 1
-        r = solve_once(cls, mms, ext, nn, kappa, bckinds, tset, tmode, lam, lunit=float(case.get('lunit') or 1.0), order=case.get('order', 'diff-first'), periodic=per_axes)
+        r = solve_once(cls, mms, ext, nn, kappa, bckinds, tset, tmode, lam, lunit=float(case.get('lunit') or 1.0), order=case.get('order', 'diff-first'), periodic=per_axes, route=case.get('route', 'plain'))
         if r is None:
             return {'verdict': 'inconclusive', 'key': 'singular', 'msg': 'non-finite solution', 'nontrivial': False, 'cov': {}}
         errs.append(r)
@@ -345,9 +365,9 @@ def run_case(case):
     # theory (pre-asymptotic cancellation); only the total reduction over two refinements is required there
     need_order, need_red = (None, 2.5) if first_order else (1.4, 5.0)
     bcv = ''.join(case['bc'][:2 * nd])
-    key = '%s/%s/%s/%s/%s/%s/%s/%s/%s/%s/%s' % (cls, spacing, bcv, tset, tmode, case.get('usign'), case.get('pe'), case.get('lunit'), case.get('order'), strip, per_axes)
+    key = '%s/%s/%s/%s/%s/%s/%s/%s/%s/%s/%s/%s' % (cls, spacing, bcv, tset, tmode, case.get('usign'), case.get('pe'), case.get('lunit'), case.get('order'), strip, per_axes, case.get('route'))
     cov = {'cases:%s' % cls: 1, 'tset:%s' % tset: 1, 'tmode:%s' % tmode: 1, 'spacing:%s' % spacing: 1, 'solves': 3,
-           'order:%s' % case.get('order', 'diff-first'): 1, 'strip:%s' % ('yes' if strip is not None else 'no'): 1, 'periodic:%s' % ('yes' if per_axes else 'no'): 1, 'length_unit:%s' % ('1' if not case.get('lunit') else ('small' if case['lunit'] < 1 else 'large')): 1}
+           'order:%s' % case.get('order', 'diff-first'): 1, 'route:%s' % case.get('route', 'plain'): 1, 'strip:%s' % ('yes' if strip is not None else 'no'): 1, 'periodic:%s' % ('yes' if per_axes else 'no'): 1, 'length_unit:%s' % ('1' if not case.get('lunit') else ('small' if case['lunit'] < 1 else 'large')): 1}
     for ch in set(bcv):
         cov['bc:' + ch] = 1
     sample = {'cls': cls, 'spacing': spacing, 'bc': bcv, 'terms': tset, 'time': tmode, 'n': [n0, 2 * n0, 4 * n0], 'err_inf': einf, 'err_l2': el2}
@@ -437,7 +457,7 @@ def plan(tier, seed):
             # before the diffusion matrix on the shared mesh (every second case)
             lunit = [None, None, 1e-8, None, None, None, 1e6][i % 7] if tier == 'quick' else [None, 1e-8, None, 3e-10, 1e6][i % 5]
             cases.append({'cls': cls, 'spacing': spacing, 'bc': list(bc), 'tset': tset, 'tmode': tmode, 'n0': n0, 'usign': usign, 'pe': pe, 'seed': [seed, 2, ci, i],
-                          'lunit': lunit, 'order': 'adv-first' if i % 2 else 'diff-first'})
+                          'lunit': lunit, 'order': 'adv-first' if i % 2 else 'diff-first', 'route': ['plain', 'list-twice', 'matrix'][i % 3] if tmode == 'steady' else 'plain'})
             i += 1
     # strips (one cell across, both orientations, flow along the strip and across it) and periodic axes (full circle / periodic box)
     for ci, cls in enumerate(CLASSES):
@@ -455,8 +475,8 @@ def plan(tier, seed):
                     i += 1
             per_cand = [k for k in range(nd) if AXKIND[cls][k] in ('ang', 'len')]
             for k in per_cand[:2] if tier == 'quick' else per_cand:
-                for spacing in ('uniform', 'graded'):
-                    cases.append({'cls': cls, 'spacing': spacing, 'bc': list('DRDRDR'), 'tset': 'D+central' if rep % 2 else 'D', 'tmode': 'steady', 'n0': None if nd == 2 else 5,
+                for spacing in ('uniform', 'graded', 'graded'):
+                    cases.append({'cls': cls, 'spacing': spacing, 'bc': list('DRDRDR'), 'tset': 'D+central' if (rep + i) % 2 else 'D', 'tmode': 'steady', 'n0': None if nd == 2 else 5,
                                   'usign': None, 'pe': 'moderate', 'seed': [seed, 2, ci, 6000 + i], 'periodic': [k], 'order': 'diff-first'})
                     i += 1
     # one case per chunk for the 3-D classes (cost), a few per chunk otherwise
@@ -475,7 +495,7 @@ def floors(agg, tier):
     for cls in CLASSES:
         if agg['cov'].get('cases:' + cls, 0) < 4:
             out.append('cases:%s < 4' % cls)
-    for k in ('strip:yes', 'periodic:yes', 'length_unit:small', 'length_unit:large', 'order:adv-first', 'order:diff-first', 'bc:D', 'bc:N', 'bc:R', 'spacing:uniform', 'spacing:graded', 'tset:D', 'tset:D+central', 'tset:D+src', 'tmode:steady'):
+    for k in ('route:list-twice', 'route:matrix', 'strip:yes', 'periodic:yes', 'length_unit:small', 'length_unit:large', 'order:adv-first', 'order:diff-first', 'bc:D', 'bc:N', 'bc:R', 'spacing:uniform', 'spacing:graded', 'tset:D', 'tset:D+central', 'tset:D+src', 'tmode:steady'):
         if agg['cov'].get(k, 0) < 3:
             out.append('%s < 3' % k)
     if agg['cov'].get('tmode:dt~h2', 0) + agg['cov'].get('tmode:dt~h', 0) < 3:
